@@ -60,8 +60,8 @@ def _ops_for(n):
     """(name, applies(n), run(c, path, segs, A, B) -> expected view)"""
     out = []
     for i in range(-n, n):
-        out.append(('p[%d]=A' % i, lambda c, p, s, A, B, i=i: (c.ip.setitem(p, i, A), s[:i % len(s)] + [A] + s[i % len(s) + 1:])[1]))
-        out.append(('del p[%d]' % i, lambda c, p, s, A, B, i=i: (c.ip.delitem(p, i), [x for k, x in enumerate(s) if k != i % len(s)])[1]))
+        out.append(('p[%d]=A' % i, lambda c, p, s, A, B, i=i: (c.setitem(p, i, A), s[:i % len(s)] + [A] + s[i % len(s) + 1:])[1]))
+        out.append(('del p[%d]' % i, lambda c, p, s, A, B, i=i: (c.delitem(p, i), [x for k, x in enumerate(s) if k != i % len(s)])[1]))
     for i in range(-n - 1, n + 2):
         def ins(c, p, s, A, B, i=i):
             c.callm(p, 'insert', i, A)
@@ -73,14 +73,14 @@ def _ops_for(n):
         for repl, rn in (([], '[]'), (['A'], '[A]'), (['A', 'B'], '[A,B]')):
             def setslice(c, p, s, A, B, a=a, b=b, repl=repl):
                 vals = [{'A': A, 'B': B}[x] for x in repl]
-                c.ip.setitem(p, slice(a, b), list(vals))
+                c.setitem(p, slice(a, b), list(vals))
                 t = list(s)
                 t[a:b] = vals
                 return t
             out.append(('p[%s:%s]=%s' % ('' if a is None else a, '' if b is None else b, rn), setslice))
 
         def delslice(c, p, s, A, B, a=a, b=b):
-            c.ip.delitem(p, slice(a, b))
+            c.delitem(p, slice(a, b))
             t = list(s)
             del t[a:b]
             return t
@@ -102,7 +102,7 @@ def _mutator_params():
     for st in STATES:
         n = len(st['kinds'])
         for k, (name, _) in enumerate(_ops_for(n)):
-            ps.append(dict(st, op=k, opname=name, _no_bounded=True))
+            ps.append(dict(st, op=k, opname=name))
     return ps
 
 
@@ -124,7 +124,7 @@ def mutator_preserves_inv(c, kinds, cached, op, opname):
     check_inv(c, path, expect, opname)
 
 
-@contract('C16', 'path.Path.start', params=[dict(s, which=w, _no_bounded=True) for s in STATES if s['kinds'] for w in ('start', 'end')], level='per-shape')
+@contract('C16', 'path.Path.start', params=[dict(s, which=w) for s in STATES if s['kinds'] for w in ('start', 'end')], level='per-shape')
 def assigning_start_or_end_preserves_inv(c, kinds, cached, which):
     path, segs, pts = inv_state(c, kinds, cached)
     z = c.cplx('z')
